@@ -45,6 +45,24 @@ CHECKS.update({
             "DESIGN.md §2 C20"),
 })
 
+CHECKS.update({
+    "C11": ("exploration",
+            "reference-model monitor (independent rendezvous rule on an independent murmur3) on every get_node result + FakeNet connection log for the server actually contacted + cross-process digests",
+            "Every placement of key corpora on 8 node sets is compared with an independent implementation of the published rule (incl. hash functions that force ties); all insertion orders (all permutations up to 5/6 nodes) and all add/remove histories up to length 4/5 must give the placement of a fresh hasher on the final set, each step moving only permitted keys; the server HashClient actually contacts is the rule's winner for every spelling of the server list; digests computed in 8 interpreter processes with different PYTHONHASHSEED are equal; shares are within 0.5x..1.5x of the mean.",
+            "Trusts the reference rule and C14's reference hash; for non-Latin-1 keys only determinism/order-independence is checked.",
+            "DESIGN.md §2 C11"),
+    "C17": ("exploration",
+            "event-log monitor (scripted inner client + recorder substituted for retrying.sleep) vs an independent decision function; exhaustive",
+            "Exhaustive over attempts 1..4 (5 thorough) x all outcome sequences over a 4-class exception hierarchy x all 81 disjoint retry_for/do_not_retry_for pairs x spellings x retry_delay: invocation count, call/sleep interleaving, sleep argument, identity of the returned and of the re-raised object, unchanged argument forwarding (also through the item protocol); all 175 overlapping pairs and other invalid configurations must be rejected at construction.",
+            "Trusts the 10-line decision function written from the statement.",
+            "DESIGN.md §2 C17"),
+    "C18": ("exploration",
+            "call-log monitor over scripted caches (and parsed command logs of reference servers behind real Clients); exhaustive",
+            "Exhaustive over 1..4 caches x all hit/miss assignments x every read and write with default and non-default arguments: consult order, early stop, identity of the returned answer, writes reaching only the primary with the caller's arguments.",
+            "A miss is None / {} as the statement's scripted caches define it; FallbackClient.gets over real Clients (miss = (None, None)) is not judged.",
+            "DESIGN.md §2 C18"),
+})
+
 NOT_YET = "check not built yet in this round (runtime-monitoring design in DESIGN.md §2); will be claimed once its monitor exists"
 
 manifest = {
